@@ -801,6 +801,10 @@ func buildInboundClustersFromSidecar(cb *ClusterBuilder, proxy *model.Proxy,
 	_, actualLocalHosts := getWildcardsAndLocalHost(proxy.GetIPMode())
 	sidecarScope := proxy.SidecarScope
 	for _, ingressListener := range sidecarScope.Sidecar.Ingress {
+		if ingressListener.GetPort() == nil {
+			// not possible for a validated Sidecar; there is nothing to listen on
+			continue
+		}
 		// LDS would have setup the inbound clusters
 		// as inbound|portNumber|portName|Hostname[or]SidecarScopeID
 		listenPort := &model.Port{
